@@ -253,6 +253,7 @@ type refactorer struct {
 	subs    []*yst          // submodules
 	imps    []*yst          // imported modules
 	gcount  int
+	icount  int
 	steps   []string
 }
 
@@ -389,6 +390,8 @@ func (r *refactorer) extractGrouping() bool {
 	}
 	if !h.inGrp {
 		scopes = append(scopes, "submodule", "import")
+	} else {
+		scopes = append(scopes, "import") // a grouping of main built from a grouping of the imported module
 	}
 	scope := rapid.SampledFrom(scopes).Draw(r.t, "scope")
 	if usesLocalGrouping(g, r.mod) {
@@ -434,6 +437,14 @@ func (r *refactorer) extractGrouping() bool {
 		r.mod.Kids = append(r.mod.Kids, g)
 		usesArg = gname
 		scope = "module"
+	}
+	if scope == "import" {
+		// the imported module numbers its groupings itself: its names coincide with names of main's groupings,
+		// which are different groupings
+		r.icount++
+		g.Arg = fmt.Sprintf("g%d", r.icount)
+		usesArg = "i1:" + g.Arg
+		r.steps = append(r.steps, "same-name-other-module")
 	}
 	u.Arg = usesArg
 	if f := commonFeature(g.Kids); f != "" && rapid.Bool().Draw(r.t, "hoist-feature") {
